@@ -1,5 +1,7 @@
 package lib
 
+import "strings"
+
 // BuildCatalogue: one small request per expected reason for emitted code not to build / vet / load
 // (C13), plus near misses that must build.  Every request is accepted by all five plugins.
 
@@ -311,6 +313,299 @@ func RandomBuildRequests(rng interface{ Intn(int) int }, n int) []*Request {
 		}
 		r := buildReq(id, []*Enum{E("Color", "COLOR_UNSPECIFIED", "COLOR_RED")}, msgs, svc)
 		r.Tags = []string{"build", "random"}
+		out = append(out, r)
+	}
+	return out
+}
+
+// ---- several annotated things of the same kind in one scope ------------------------------------------
+//
+// SameKindCatalogue: every emitter that prints a block per annotated thing prints those blocks into ONE
+// scope when a message / service / file carries several of them: k discriminated oneofs, k flatten fields,
+// k unwrap maps and k annotated fields of one feature per message (one MarshalJSON / UnmarshalJSON body);
+// several services per file sharing rpc names, request / response messages and header names (one Go
+// package, one TS module per file); several methods of one service sharing messages and headers.
+// Everything here is accepted by all five plugins.  Only the requests whose id ends in "samerpc" repeat
+// an rpc name across services (a known go-http finding); the others are expected to build, vet and load.
+
+func hdr(n string, required bool) *Header { return &Header{Name: n, Type: "string", Required: required} }
+
+// discOneofs adds k discriminated oneofs o0..o<k-1> to m (field numbers from base): oneof i has a message
+// variant, a second message variant and (when not flattened) a scalar variant.
+func discOneofs(m *Message, pkg string, k int, base int32, flat func(i int) bool, variantMsgs []string) *Message {
+	for i := 0; i < k; i++ {
+		on := "o" + string(rune('0'+i))
+		fl := flat(i)
+		m.Oneofs = append(m.Oneofs, &Oneof{Name: on, HasConfig: true, Discriminator: on + "Kind", Flatten: fl})
+		a := variantMsgs[(2*i)%len(variantMsgs)]
+		b := variantMsgs[(2*i+1)%len(variantMsgs)]
+		m.Fields = append(m.Fields,
+			F(on+"_a", base, "", Msg(pkg+"."+a), InOneof(on)),
+			F(on+"_b", base+1, "", Msg(pkg+"."+b), InOneof(on), OneofVal("second")))
+		if !fl {
+			m.Fields = append(m.Fields, F(on+"_s", base+2, "string", InOneof(on)))
+		}
+		base += 3
+	}
+	return m
+}
+
+func SameKindCatalogue() []*Request {
+	var out []*Request
+	add := func(r *Request) { r.Tags = []string{"build", "samekind"}; out = append(out, r) }
+	q := func(id, t string) string { return id + ".v1." + t }
+	echo := func(id string, tops ...string) *Service {
+		svc := &Service{Name: "Echo", BasePath: "/" + id, HasConfig: true}
+		for _, t := range tops {
+			svc.Methods = append(svc.Methods, RPC("Echo"+strings.ReplaceAll(t, ".", ""), q(id, t), q(id, t), "POST", "/echo/"+t))
+		}
+		return svc
+	}
+
+	{ // k discriminated oneofs in one message: one MarshalJSON / UnmarshalJSON body holds k blocks
+		id := "bkoneof"
+		pkg := id + ".v1"
+		// variant payloads with pairwise different field names (flatten lifts them into the parent)
+		var vs []*Message
+		var vnames []string
+		for i := 0; i < 6; i++ {
+			n := "V" + string(rune('a'+i))
+			vs = append(vs, M(n, F("v"+string(rune('a'+i))+"_text", 1, "string"), F("v"+string(rune('a'+i))+"_n", 2, "int32")))
+			vnames = append(vnames, n)
+		}
+		never := func(int) bool { return false }
+		always := func(int) bool { return true }
+		msgs := append(vs,
+			discOneofs(M("Two", F("id", 1, "string")), pkg, 2, 2, never, vnames),
+			discOneofs(M("TwoFlat", F("id", 1, "string")), pkg, 2, 2, always, vnames),
+			discOneofs(M("ThreeMixed", F("id", 1, "string")), pkg, 3, 2, func(i int) bool { return i == 1 }, vnames),
+			// the same variant type and the same discriminator VALUES in both oneofs (two switch statements)
+			discOneofs(M("TwoSameVariants", F("id", 1, "string")), pkg, 2, 2, never, []string{"Va", "Vb", "Va", "Vb"}),
+			// an annotated oneof next to plain ones and to a oneof with an empty discriminator
+			M("Mixed", F("id", 1, "string"), F("p_a", 2, "string", InOneof("plain")), F("p_b", 3, "int32", InOneof("plain")),
+				F("d_a", 4, "", Msg(pkg+".Va"), InOneof("d")), F("d_b", 5, "string", InOneof("d")),
+				F("e_a", 6, "", Msg(pkg+".Vb"), InOneof("e")), F("e_b", 7, "bool", InOneof("e")),
+				F("n_a", 8, "string", InOneof("nocfg")), F("n_b", 9, "", Msg(pkg+".Vc"), InOneof("nocfg"))).
+				WithOneofs(&Oneof{Name: "plain"}, &Oneof{Name: "d", HasConfig: true, Discriminator: "dKind"},
+					&Oneof{Name: "e", HasConfig: true, Discriminator: "eKind"}, &Oneof{Name: "nocfg", HasConfig: true}),
+			// several messages with one annotated oneof each, all with the same oneof / discriminator / variant names
+			M("OneA", F("id", 1, "string"), F("text", 2, "", Msg(pkg+".Va"), InOneof("payload")), F("image", 3, "", Msg(pkg+".Vb"), InOneof("payload"))).
+				WithOneofs(&Oneof{Name: "payload", HasConfig: true, Discriminator: "kind"}),
+			M("OneB", F("id", 1, "string"), F("text", 2, "", Msg(pkg+".Va"), InOneof("payload")), F("image", 3, "", Msg(pkg+".Vb"), InOneof("payload"))).
+				WithOneofs(&Oneof{Name: "payload", HasConfig: true, Discriminator: "kind", Flatten: true}),
+			// nested message with two annotated oneofs, parent with one
+			discOneofs(M("Outer", F("id", 1, "string")), pkg, 1, 2, never, vnames).
+				WithNested(discOneofs(M("Inner", F("id", 1, "string")), pkg, 2, 2, func(i int) bool { return i == 0 }, vnames)))
+		add(buildReq(id, nil, msgs, echo(id, "Two", "TwoFlat", "ThreeMixed", "TwoSameVariants", "Mixed", "OneA", "OneB", "Outer", "Outer.Inner")))
+		// a service-less file with two annotated oneofs in one message (the codec file is emitted for it too)
+		id = "bkoneofnosvc"
+		pkg = id + ".v1"
+		types := &File{Path: id + "/types.proto", Package: pkg, GoPackage: "verifgen/" + id + ";" + id, Generate: true,
+			Messages: []*Message{M("Va", F("va_text", 1, "string")), M("Vb", F("vb_text", 1, "string")),
+				discOneofs(M("Drawing", F("id", 1, "string")), pkg, 2, 2, func(i int) bool { return i == 1 }, []string{"Va", "Vb"})}}
+		r := &Request{ID: id, Files: []*File{types}}
+		add(r)
+	}
+	{ // k flatten fields in one message
+		id := "bkflatten"
+		pkg := id + ".v1"
+		add(buildReq(id, nil, []*Message{
+			M("Addr", F("street", 1, "string"), F("zip_code", 2, "string")), M("Geo", F("lat", 1, "double"), F("lng", 2, "double")), M("Tag", F("label", 1, "string")),
+			M("Three", F("id", 1, "string"), F("home", 2, "", Msg(pkg+".Addr"), Flatten(true)), F("work", 3, "", Msg(pkg+".Addr"), Flatten(true), FlattenPrefix("work_")),
+				F("geo", 4, "", Msg(pkg+".Geo"), Flatten(true), FlattenPrefix("geo_")), F("tag", 5, "", Msg(pkg+".Tag"), Flatten(true)), F("plain", 6, "", Msg(pkg+".Tag"))),
+			// a flattened child that itself flattens two children
+			M("Deep", F("three", 1, "", Msg(pkg+".Three"), Flatten(true), FlattenPrefix("t_")), F("tag", 2, "", Msg(pkg+".Tag"), Flatten(true), FlattenPrefix("x_"))),
+			// two messages flattening the same children under the same names
+			M("TwinA", F("home", 1, "", Msg(pkg+".Addr"), Flatten(true)), F("geo", 2, "", Msg(pkg+".Geo"), Flatten(true))),
+			M("TwinB", F("home", 1, "", Msg(pkg+".Addr"), Flatten(true)), F("geo", 2, "", Msg(pkg+".Geo"), Flatten(true))),
+		}, echo(id, "Three", "Deep", "TwinA", "TwinB")))
+	}
+	{ // k unwrap maps in one message; several root unwraps in one file
+		id := "bkunwrap"
+		pkg := id + ".v1"
+		add(buildReq(id, nil, []*Message{
+			M("Bar", F("t", 1, "int64"), F("sym", 2, "string")),
+			M("BarList", F("bars", 1, "", Msg(pkg+".Bar"), Rep(), Unwrap())),
+			M("TickList", F("ticks", 1, "", Msg(pkg+".Bar"), Rep(), Unwrap()), F("n", 2, "int32")),
+			M("NameList", F("names", 1, "string", Rep(), Unwrap())),
+			M("NumList", F("nums", 1, "double", Rep(), Unwrap())),
+			M("Three", F("series", 1, "", Msg(pkg+".BarList"), MapOf("string")), F("again", 2, "", Msg(pkg+".BarList"), MapOf("string")),
+				F("ticks", 3, "", Msg(pkg+".TickList"), MapOf("string")), F("names", 4, "", Msg(pkg+".NameList"), MapOf("string")),
+				F("nums", 5, "", Msg(pkg+".NumList"), MapOf("string")), F("plain", 6, "", Msg(pkg+".Bar"), MapOf("string")),
+				F("label", 7, "string"), F("many", 8, "", Msg(pkg+".Bar"), Rep()), F("one", 9, "", Msg(pkg+".Bar"))),
+			M("TwinA", F("series", 1, "", Msg(pkg+".BarList"), MapOf("string")), F("names", 2, "", Msg(pkg+".NameList"), MapOf("string"))),
+			M("TwinB", F("series", 1, "", Msg(pkg+".BarList"), MapOf("string")), F("names", 2, "", Msg(pkg+".NameList"), MapOf("string"))),
+			M("RootA", F("items", 1, "", Msg(pkg+".Bar"), Rep(), Unwrap())), M("RootB", F("items", 1, "", Msg(pkg+".Bar"), Rep(), Unwrap())),
+			M("RootMapA", F("by", 1, "", Msg(pkg+".Bar"), MapOf("string"), Unwrap())), M("RootMapB", F("by", 1, "", Msg(pkg+".BarList"), MapOf("string"), Unwrap())),
+		}, echo(id, "Three", "TwinA", "TwinB", "RootA", "RootB", "RootMapA", "RootMapB")))
+	}
+	{ // k annotated fields of ONE feature per message (one codec body per feature), k enums with custom values
+		id := "bkfields"
+		pkg := id + ".v1"
+		cust := func(name string) *Enum {
+			u := strings.ToUpper(name)
+			return &Enum{Name: name, Values: []*EnumValue{{Name: u + "_UNSPECIFIED", Number: 0}, {Name: u + "_ON", Number: 1, EnumValue: Str("on")}, {Name: u + "_OFF", Number: 2, EnumValue: Str("off")}}}
+		}
+		add(buildReq(id, []*Enum{cust("Power"), cust("Light"), cust("Valve")}, []*Message{
+			M("Meta", F("k", 1, "string")),
+			M("Nums", F("a", 1, "int64", I64("NUMBER")), F("b", 2, "uint64", I64("NUMBER")), F("c", 3, "sfixed64", I64("NUMBER")), F("d", 4, "int64", Rep(), I64("NUMBER")), F("e", 5, "sint64", Rep(), I64("NUMBER")), F("s", 6, "int64", I64("STRING"))),
+			M("Nulls", F("a", 1, "string", Opt(), Nullable(true)), F("b", 2, "int32", Opt(), Nullable(true)), F("c", 3, "bool", Opt(), Nullable(true)), F("d", 4, "double", Opt(), Nullable(true))),
+			M("Empties", F("a", 1, "", Msg(pkg+".Meta"), Empty("NULL")), F("b", 2, "", Msg(pkg+".Meta"), Empty("OMIT")), F("c", 3, "", Msg(pkg+".Meta"), Empty("PRESERVE")), F("d", 4, "", Msg(pkg+".Meta"), Empty("NULL"), Opt())),
+			M("Times", F("a", 1, "", Msg(Timestamp), TsFmt("UNIX_SECONDS")), F("b", 2, "", Msg(Timestamp), TsFmt("UNIX_MILLIS")), F("c", 3, "", Msg(Timestamp), TsFmt("DATE")), F("d", 4, "", Msg(Timestamp), TsFmt("RFC3339")), F("e", 5, "", Msg(Timestamp), TsFmt("DATE"), Opt())),
+			M("Blobs", F("a", 1, "bytes", BytesEnc("HEX")), F("b", 2, "bytes", BytesEnc("BASE64URL")), F("c", 3, "bytes", BytesEnc("BASE64_RAW")), F("d", 4, "bytes", BytesEnc("BASE64URL_RAW")), F("e", 5, "bytes", BytesEnc("HEX"), Opt())),
+			M("Switches", F("p", 1, "", EnumT(pkg+".Power")), F("l", 2, "", EnumT(pkg+".Light")), F("v", 3, "", EnumT(pkg+".Valve")), F("ps", 4, "", EnumT(pkg+".Power"), Rep())),
+		}, echo(id, "Nums", "Nulls", "Empties", "Times", "Blobs", "Switches")))
+	}
+
+	// ---- several services in one file ------------------------------------------------------------------
+	shared := func(id string) []*Message {
+		return []*Message{
+			M("GetReq", F("id", 1, "string"), F("page", 2, "int32", Query("page", false)), F("filter", 3, "string", Query("filter", false))),
+			M("Item", F("id", 1, "string"), F("title", 2, "string")), M("Empty"),
+			M("PutReq", F("id", 1, "string"), F("item", 2, "", Msg(q(id, "Item")))),
+		}
+	}
+	{ // distinct rpc names; shared request / response messages; the same header names at service and method level;
+		// several methods of one service with the same messages and headers
+		id := "bsvcshare"
+		key, trace, req := hdr("X-API-Key", true), hdr("X-Trace-ID", false), hdr("X-Request-ID", true)
+		users := Svc("UserService", "/users",
+			RPC("GetUser", q(id, "GetReq"), q(id, "Item"), "GET", "/{id}").WithHeaders(req),
+			RPC("FindUser", q(id, "GetReq"), q(id, "Item"), "GET", "/find/{id}").WithHeaders(req),
+			RPC("PutUser", q(id, "PutReq"), q(id, "Item"), "PUT", "/{id}").WithHeaders(req, trace),
+			RPC("DropUser", q(id, "GetReq"), q(id, "Empty"), "DELETE", "/{id}"),
+			RPC("PingUsers", q(id, "Empty"), q(id, "Empty"), "POST", "/ping")).WithHeaders(key, trace)
+		orders := Svc("OrderService", "/orders",
+			RPC("GetOrder", q(id, "GetReq"), q(id, "Item"), "GET", "/{id}").WithHeaders(req),
+			RPC("PutOrder", q(id, "PutReq"), q(id, "Item"), "PUT", "/{id}").WithHeaders(req, trace),
+			RPC("DropOrder", q(id, "GetReq"), q(id, "Empty"), "DELETE", "/{id}").WithHeaders(req),
+			RPC("PingOrders", q(id, "Empty"), q(id, "Empty"), "POST", "/ping")).WithHeaders(key, trace)
+		admin := Svc("AdminService", "/admin",
+			RPC("LookupUser", q(id, "GetReq"), q(id, "Item"), "GET", "/user/{id}").WithHeaders(key),
+			RPC("LookupOrder", q(id, "GetReq"), q(id, "Item"), "GET", "/order/{id}").WithHeaders(key),
+			RPC("PingAdmin", q(id, "Empty"), q(id, "Empty"), "POST", "/ping"))
+		bare := &Service{Name: "BareService", Methods: []*Method{{Name: "Describe", In: q(id, "GetReq"), Out: q(id, "Item")}, {Name: "Refresh", In: q(id, "Empty"), Out: q(id, "Empty")}}}
+		add(buildReq(id, nil, shared(id), users, orders, admin, bare))
+	}
+	for _, c := range []struct {
+		id           string
+		svcH, mdH    bool
+		secondHasHdr bool
+	}{
+		{"bsvchdrsamerpc", true, true, true},    // service headers and method headers on both
+		{"bsvcmdhsamerpc", false, true, true},   // method headers only
+		{"bsvcsvhsamerpc", true, false, true},   // service headers only
+		{"bsvconehsamerpc", true, true, false},  // only the first service's rpcs have headers in scope
+	} {
+		id := c.id
+		key, req := hdr("X-API-Key", true), hdr("X-Request-ID", false)
+		mh := func(m *Method, on bool) *Method {
+			if on && c.mdH {
+				return m.WithHeaders(req)
+			}
+			return m
+		}
+		users := Svc("UserService", "/users",
+			mh(RPC("Get", q(id, "GetReq"), q(id, "Item"), "GET", "/{id}"), true),
+			mh(RPC("Put", q(id, "PutReq"), q(id, "Item"), "PUT", "/{id}"), true),
+			RPC("List", q(id, "Empty"), q(id, "Item"), "POST", "/list"))
+		orders := Svc("OrderService", "/orders",
+			mh(RPC("Get", q(id, "GetReq"), q(id, "Item"), "GET", "/{id}"), c.secondHasHdr),
+			mh(RPC("Put", q(id, "PutReq"), q(id, "Item"), "PUT", "/{id}"), c.secondHasHdr),
+			mh(RPC("list", q(id, "Empty"), q(id, "Item"), "POST", "/list"), c.secondHasHdr)) // lowerFirst(List) = list
+		if c.svcH {
+			users.Headers = []*Header{key}
+			if c.secondHasHdr {
+				orders.Headers = []*Header{key}
+			}
+		}
+		add(buildReq(id, nil, shared(id), users, orders))
+	}
+	return out
+}
+
+// RandomSameKindRequests: seeded random members of the same family: per request either one message with
+// k in 2..4 annotated things of one kind, or 2..3 services drawing rpc names, messages and headers from
+// small shared pools (so that they repeat).
+func RandomSameKindRequests(rng interface{ Intn(int) int }, n int) []*Request {
+	var out []*Request
+	for i := 0; i < n; i++ {
+		id := "bksr" + string(rune('a'+i/26%26)) + string(rune('a'+i%26))
+		pkg := id + ".v1"
+		var r *Request
+		switch rng.Intn(4) {
+		case 0: // k discriminated oneofs
+			k := 2 + rng.Intn(3)
+			var msgs []*Message
+			var vn []string
+			for j := 0; j < 2*k; j++ {
+				n := "V" + string(rune('a'+j))
+				msgs = append(msgs, M(n, F("v"+string(rune('a'+j))+"_x", 1, []string{"string", "int32", "bool"}[rng.Intn(3)])))
+				vn = append(vn, n)
+			}
+			flat := make([]bool, k)
+			for j := range flat {
+				flat[j] = rng.Intn(2) == 0
+			}
+			m := discOneofs(M("A", F("id", 1, "string")), pkg, k, 2, func(j int) bool { return flat[j] }, vn)
+			if rng.Intn(2) == 0 { // an unannotated oneof in between
+				m.Oneofs = append(m.Oneofs, &Oneof{Name: "plain"})
+				m.Fields = append(m.Fields, F("pl_a", 90, "string", InOneof("plain")), F("pl_b", 91, "int64", InOneof("plain")))
+			}
+			msgs = append(msgs, m)
+			svc := Svc("Echo", "/"+id, RPC("EchoA", pkg+".A", pkg+".A", "POST", "/a"))
+			if rng.Intn(4) == 0 {
+				r = buildReq(id, nil, msgs)
+			} else {
+				r = buildReq(id, nil, msgs, svc)
+			}
+		case 1: // k flatten fields / k unwrap maps
+			k := 2 + rng.Intn(3)
+			msgs := []*Message{M("Child", F("a", 1, "string"), F("b_c", 2, "int32")), M("Bar", F("t", 1, "int64")),
+				M("BarList", F("bars", 1, "", Msg(pkg+".Bar"), Rep(), Unwrap())), M("StrList", F("vals", 1, "string", Rep(), Unwrap()))}
+			fl := M("Flat", F("id", 1, "string"))
+			uw := M("Cont", F("id", 1, "string"))
+			for j := 0; j < k; j++ {
+				fl.Fields = append(fl.Fields, F("c"+string(rune('0'+j)), int32(j+2), "", Msg(pkg+".Child"), Flatten(true), FlattenPrefix("p"+string(rune('0'+j))+"_")))
+				uw.Fields = append(uw.Fields, F("m"+string(rune('0'+j)), int32(j+2), "", Msg(pkg+"."+[]string{"BarList", "StrList"}[rng.Intn(2)]), MapOf("string")))
+			}
+			msgs = append(msgs, fl, uw)
+			r = buildReq(id, nil, msgs, Svc("Echo", "/"+id, RPC("EchoFlat", pkg+".Flat", pkg+".Flat", "POST", "/f"), RPC("EchoCont", pkg+".Cont", pkg+".Cont", "POST", "/c")))
+		default: // several services sharing names
+			ns := 2 + rng.Intn(2)
+			sameRPC := rng.Intn(3) == 0
+			hs := []*Header{hdr("X-API-Key", true), hdr("X-Trace", false), hdr("X-Tenant", true)}
+			msgs := []*Message{M("GetReq", F("id", 1, "string"), F("page", 2, "int32", Query("page", false))), M("Item", F("id", 1, "string")), M("Other", F("n", 1, "int64"))}
+			var svcs []*Service
+			for si := 0; si < ns; si++ {
+				sn := "Svc" + string(rune('A'+si))
+				sv := Svc(sn, "/"+strings.ToLower(sn))
+				if rng.Intn(3) != 0 {
+					sv.Headers = []*Header{hs[rng.Intn(len(hs))]}
+				}
+				nm := 1 + rng.Intn(3)
+				for mi := 0; mi < nm; mi++ {
+					name := []string{"Get", "Find", "Load"}[mi]
+					if !sameRPC {
+						name += sn
+					}
+					outT := []string{"Item", "Item", "Other"}[rng.Intn(3)]
+					var m *Method
+					if rng.Intn(2) == 0 {
+						m = RPC(name, pkg+".GetReq", pkg+"."+outT, "GET", "/"+strings.ToLower(name)+"/{id}")
+					} else {
+						m = RPC(name, pkg+".Item", pkg+"."+outT, "POST", "/"+strings.ToLower(name))
+					}
+					if rng.Intn(2) == 0 {
+						m.Headers = []*Header{hs[rng.Intn(len(hs))]}
+					}
+					sv.Methods = append(sv.Methods, m)
+				}
+				svcs = append(svcs, sv)
+			}
+			r = buildReq(id, nil, msgs, svcs...)
+		}
+		r.Tags = []string{"build", "samekind", "random"}
 		out = append(out, r)
 	}
 	return out
